@@ -158,7 +158,7 @@ theorem lookupAt_eq_findRes (H : Bytes → Bytes) (L : Nat) (hL : ∀ k, (H k).l
     | nil => simp [wfSlots] at hwf
     | cons q qs =>
       simp only [wfSlots, Bool.and_eq_true, beq_iff_eq, decide_eq_true_eq] at hwf
-      obtain ⟨⟨hlen, hdig⟩, hrest⟩ := hwf
+      obtain ⟨⟨⟨_, hlen⟩, hdig⟩, hrest⟩ := hwf
       have hnd' := List.nodup_cons.mp hnd
       cases j with
       | zero =>
@@ -193,7 +193,7 @@ theorem lookupAt_eq_findRes (H : Bytes → Bytes) (L : Nat) (hL : ∀ k, (H k).l
     | nil => simp [wfSlots] at hwf
     | cons q qs =>
       simp only [wfSlots, Bool.and_eq_true, decide_eq_true_eq, List.all_eq_true, beq_iff_eq] at hwf
-      obtain ⟨⟨⟨⟨hlen, hall⟩, hdeep⟩, hsub⟩, hrest⟩ := hwf
+      obtain ⟨⟨⟨⟨⟨_, hlen⟩, hall⟩, hdeep⟩, hsub⟩, hrest⟩ := hwf
       have hnd' := List.nodup_cons.mp hnd
       cases j with
       | zero =>
